@@ -189,6 +189,10 @@ class Ctx(object):
         for fid, n in sorted(self.known_hits.items()):
             what = [f["what"] for f in self.known if f["id"] == fid][0]
             print("KNOWN-FINDING: property=%s %s [%s; hit %d times]" % (self.pid, what, fid, n))
+        import collections
+        kinds = collections.Counter((v["module"], v["kind"]) for v in self.violations)
+        for (m, k), n in kinds.most_common(12):
+            print("  violation-class module=%s kind=%s count=%d" % (m, k, n))
         seen = set()
         for v in self.violations:
             if v["replay"] in seen:
